@@ -49,8 +49,12 @@ def plan(tier: str) -> dict:
 
 
 def gen_traj_noise(tape: Tape, backend: str = "") -> tuple[dict, int, str]:
-    kind = tape.choice(["spam", "amplitude", "detuning", "lindblad"] + (["spam_prep"] if backend == "sv" else []), "traj_noise")
+    kind = tape.choice(["spam", "amplitude", "detuning", "lindblad", "device_none"] + (["spam_prep"] if backend == "sv" else []), "traj_noise")
     n = tape.int(2, 6, "n_trajectories")
+    if kind == "device_none":
+        # prefer_device_noise_model=True with a device that carries no noise model: a noiseless run, repeated n times
+        # (the config's own noise model, here a decoy or nothing, must be ignored)
+        return ({"dephasing_rate": 1.0} if tape.bool(0.5, "decoy") else {}), n, kind
     if kind == "spam_prep":
         # emu-sv simulates shots with badly prepared atoms, including shots in which no atom at all was loaded
         # (emu-mps refuses registers with fewer than two well-prepared atoms, C25's subject, so this is emu-sv only)
@@ -123,7 +127,9 @@ def run_one(tape: Tape, tier: str, opts: dict) -> dict:
                 noise, ntraj, tkind = gen_traj_noise(tape, case["backend"])
                 if case["scn"].get("xy"):
                     noise = C.xy_compatible(noise) or {"dephasing_rate": 0.5}
-                case["cfg"]["noise"] = noise
+                case["cfg"]["noise"] = noise or None
+                if tkind == "device_none":
+                    case["cfg"]["prefer_device_noise"] = True
                 case["cfg"]["n_trajectories"] = ntraj
             S.make_config(case["scn"], case["cfg"])
         except Exception as e:
